@@ -280,6 +280,8 @@ impl ParallelCacheState {
     fn apply_evm_state_inner(&self, evm_state: EvmState) -> Vec<(Address, TransitionAccount)> {
         let mut transitions = Vec::with_capacity(evm_state.len());
         for (address, account) in evm_state {
+            #[cfg(grevm_verif)]
+            crate::verif::sched_point("commit.account");
             if let Some(transition) = self.apply_account_state(address, account) {
                 transitions.push((address, transition));
             }
@@ -353,6 +355,8 @@ impl ParallelCacheState {
         if let Some(changed_slots) = changed_slots &&
             !changed_slots.is_empty()
         {
+            #[cfg(grevm_verif)]
+            crate::verif::sched_point("commit.slots");
             self.update_storage_slot(address, changed_slots);
         }
         transition
@@ -525,10 +529,14 @@ impl<'a, DB: DatabaseRef> ParallelStateView<'a, DB> {
     }
 
     fn db_basic(self, address: Address) -> Result<Option<AccountInfo>, DB::Error> {
+        #[cfg(grevm_verif)]
+        crate::verif::sched_point("cache.basic.probe");
         if let Some(account) = self.cache.accounts.get(&address) {
             return Ok(account.account.clone());
         }
         let info = self.with_metrics(|| self.database.basic_ref(address))?;
+        #[cfg(grevm_verif)]
+        crate::verif::sched_point("cache.basic.insert");
         let account = match info {
             None => CacheAccountInfo::new(None, AccountStatus::LoadedNotExisting),
             Some(acc) if acc.is_empty() => CacheAccountInfo::new(
@@ -544,10 +552,14 @@ impl<'a, DB: DatabaseRef> ParallelStateView<'a, DB> {
     }
 
     fn db_code_by_hash(self, code_hash: B256) -> Result<Bytecode, DB::Error> {
+        #[cfg(grevm_verif)]
+        crate::verif::sched_point("cache.code.probe");
         if let Some(code) = self.cache.contracts.get(&code_hash) {
             return Ok(code.value().clone());
         }
         let code = self.with_metrics(|| self.database.code_by_hash_ref(code_hash))?;
+        #[cfg(grevm_verif)]
+        crate::verif::sched_point("cache.code.insert");
         match self.cache.contracts.entry(code_hash) {
             Entry::Occupied(entry) => Ok(entry.get().clone()),
             Entry::Vacant(entry) => {
@@ -558,6 +570,8 @@ impl<'a, DB: DatabaseRef> ParallelStateView<'a, DB> {
     }
 
     fn db_storage(self, address: Address, index: U256) -> Result<U256, DB::Error> {
+        #[cfg(grevm_verif)]
+        crate::verif::sched_point("cache.slot.probe");
         if let Some(slots) = self.cache.storage.get(&address) &&
             let Some(value) = slots.get(&index)
         {
@@ -565,6 +579,8 @@ impl<'a, DB: DatabaseRef> ParallelStateView<'a, DB> {
         }
         // As in revm State::storage_ref, the account is not guaranteed to be cached. In that case,
         // the backing database remains the source of truth.
+        #[cfg(grevm_verif)]
+        crate::verif::sched_point("cache.slot.known");
         let is_storage_known =
             self.cache.accounts.get(&address).is_some_and(|account| {
                 account.status.is_storage_known() || account.account.is_none()
@@ -575,6 +591,8 @@ impl<'a, DB: DatabaseRef> ParallelStateView<'a, DB> {
         } else {
             self.with_metrics(|| self.database.storage_ref(address, index))?
         };
+        #[cfg(grevm_verif)]
+        crate::verif::sched_point("cache.slot.insert");
         let value = if let Some(slots) = self.cache.storage.get(&address) {
             *slots.entry(index).or_insert(value).value()
         } else {
